@@ -1,6 +1,7 @@
 //! Lazy loading functionality for DBC files
 
 use crate::field_parser::bounded_capacity;
+use crate::versions::record_data_offset;
 use crate::{DbcHeader, Error, FieldType, Record, Result, Schema, StringBlock, Value};
 use std::io::{Cursor, Read};
 use std::sync::Arc;
@@ -28,7 +29,7 @@ impl<'a> LazyRecordIterator<'a> {
         _string_block: Arc<StringBlock>,
     ) -> Self {
         let mut cursor = Cursor::new(data);
-        cursor.set_position(DbcHeader::SIZE as u64);
+        cursor.set_position(record_data_offset(data));
 
         Self {
             cursor,
@@ -116,6 +117,8 @@ pub struct LazyDbcParser<'a> {
     data: &'a [u8],
     /// The string block
     string_block: Arc<StringBlock>,
+    /// Offset of the first record in `data` (the header length depends on the file version)
+    record_data_offset: u64,
 }
 
 impl<'a> LazyDbcParser<'a> {
@@ -131,6 +134,7 @@ impl<'a> LazyDbcParser<'a> {
             header,
             schema,
             string_block,
+            record_data_offset: record_data_offset(data),
         }
     }
 
@@ -155,7 +159,7 @@ impl<'a> LazyDbcParser<'a> {
 
         let mut cursor = Cursor::new(self.data);
         let record_position =
-            DbcHeader::SIZE as u64 + (index as u64 * self.header.record_size as u64);
+            self.record_data_offset + (index as u64 * self.header.record_size as u64);
         cursor.set_position(record_position);
 
         if let Some(schema) = self.schema {
